@@ -171,6 +171,41 @@ def check_bytes(sh, b, cls=None, deep=True, attrib=None):
                 sh.violation('stream/%s-stream-decode-differs' % kind, 'dis(%s) accepted with l=%d but from a %s stream: %s' % (b.hex(), l, kind, 'None' if i4 is None else i4.l), dict(wit, stream=kind))
             if not expect and i4 is not None:
                 sh.violation('stream/truncated-accepted/%s' % ins.m.name, 'dis(%s) has l=%d but a truncated %s stream is accepted' % (b.hex(), l, kind), dict(wit, stream=kind))
+    # streams with a history: (i) two streams over one file object, used alternately, each one positioned explicitly before its decode;
+    # (ii) a stream over a bytearray that is patched in place between two decodes (the second decode reads the bytes as they are now)
+    try:
+        other = bytes([0x90, 0xb8, 0x01, 0x02, 0x03, 0x04, 0xc3])
+        fobj = io.BytesIO(b[:l] + other)
+        s1 = bin_stream(fobj, 0)
+        s2 = bin_stream(fobj, l + 1)
+        s2.offset = l + 1
+        j2 = x86mnemo.dis(s2)             # mov eax, imm32 at l+1
+        s1.offset = 0
+        j1 = x86mnemo.dis(s1)             # the instruction under test (the stream is told its position again: the file moved)
+        s2.offset = l + 6
+        j3 = x86mnemo.dis(s2)             # ret
+        s1.offset = l
+        j4 = x86mnemo.dis(s1)             # nop
+        got = [None if j is None else (j.l, bytes(j.b)) for j in (j1, j2, j3, j4)]
+        want = [(l, b[:l]), (5, other[1:6]), (1, other[6:7]), (1, other[0:1])]
+    except Exception as e:
+        got, want = 'raises %s' % type(e).__name__, None
+    sh.evaluations += 1
+    if got != want:
+        sh.violation('stream/two-file-streams-interleaved', 'two streams over one file object holding %s + nop, mov, ret: decodes %r, expected %r' % (b[:l].hex(), got, want), dict(wit, stream='file-shared'))
+    try:
+        buf = bytearray(b'\x90' * l + b'\xcc' * 4)
+        sb = bin_stream(buf, 0)
+        k1 = x86mnemo.dis(sb)
+        buf[0:l] = b[:l]
+        sb.offset = 0
+        k2 = x86mnemo.dis(sb)
+        got = (None if k1 is None else k1.l, None if k2 is None else (k2.l, bytes(k2.b)))
+    except Exception as e:
+        got = 'raises %s' % type(e).__name__
+    sh.evaluations += 1
+    if got != (1, (l, b[:l])):
+        sh.violation('stream/bytearray-patched-in-place', 'a stream over a bytearray that held nops and now holds %s decodes %r' % (b[:l].hex(), got), dict(wit, stream='bytearray-patched'))
     # a virtual address space of 2^32 bytes in which the instruction ends exactly at the top
     class _TopVirt(object):
         def __init__(self, data):
